@@ -67,6 +67,15 @@ add("C04", "exploration", "DESIGN.md §2 C04",
     "stdlib mimetypes.MimeTypes (private instance) is the trusted reading of the configured tables; decompressor "
     "binaries zcat/bzcat are trusted; TLS is simulated in-process (no record layer)")
 
+add("C05", "exploration", "DESIGN.md §2 C05",
+    "Hypothesis-generated sites crawled breadth-first through each protocol's own syntax by independent clients; "
+    "oracle: every rendered local link is served with the advertised kind, reached set == described set",
+    "2.5k (quick) / 60k (thorough) sites with hostile names, each crawled through 3-6 protocol forms (~55k requests "
+    "per quick run): links are followed exactly as rendered (percent-encoding, WAP prefix, virtual selectors, ZIP "
+    "members). Sampled exploration of trees of depth <= 3.",
+    "client-side parsers are trusted; the reserved namespaces listed in the evidence assumptions are not generated; "
+    "one recorded finding (virtual separators in mailbox paths) is excluded by signature and reported as KNOWN-FINDING")
+
 NOT_APPLICABLE = []
 
 
